@@ -26,7 +26,9 @@ package main
 // (no leading delimiter when there is no prefix); all languages agree.
 // Recorded findings (KNOWN_FINDINGS.txt): Python uses the scope name as written
 // (for names that are not capitalised Python is compared with the as-written spec
-// and with itself only); static tokens containing % " ' \ $ { } are excluded.
+// and with itself only); static tokens containing % " ' \ $ { } are excluded; the Dart
+// columns are expected to fail when the prefix ends in a variable and the delimiter
+// starts with an identifier character.
 
 import (
 	"fmt"
@@ -791,6 +793,9 @@ func c08Oracle(c c08Case, r c08Result) (fails []c08Fail, knownTitle bool) {
 					knownTitle = true
 				}
 			}
+			if lang == "dart" && c08DartGlue(c.prefix, c.delim) && !cell.ok {
+				continue // recorded finding dart-variable-glued-to-delimiter: `$var` runs into the delimiter
+			}
 			if !cell.ok {
 				fails = append(fails, c08Fail{"generated " + langName(lang) + " topic expression is not a plain format (wrong at run time or does not compile)", fmt.Sprintf("%s op %s", col, op)})
 				continue
@@ -967,6 +972,11 @@ func genC08(r *Rng) (c c08Case, kind string) {
 		kind = "badvar"
 		toks[r.Intn(len(toks))] = "{" + r.pickStr("u", "X", "1a", "_a", "9", "a", "__") + "}"
 	}
+	// `prefix` is followed by `__`, which also skips comments: a first token that opens a
+	// comment (#…, //…, /*…) is not a prefix token for the IDL lexer
+	for len(toks) > 0 && (strings.HasPrefix(toks[0], "#") || strings.HasPrefix(toks[0], "//") || strings.HasPrefix(toks[0], "/*")) {
+		toks[0] = toks[0][1:] + "x"
+	}
 	c.prefix = strings.Join(toks, ".")
 	nv := 0
 	_, isVar := c08Tokens(c.prefix)
@@ -1046,6 +1056,19 @@ func c08Known() {
 	}
 }
 
+func c08KnownDart() {
+	// Dart: `$var` directly followed by a delimiter that continues the identifier
+	if idl, delim, ops, vals, ok := c08Witness("c08_dart_variable_glued.frugal"); ok {
+		r := c08RunIDL(idl, delim, ops, vals)
+		if r.status == "ok" {
+			d, g := r.cells[ops[0]]["dart.pub"], r.cells[ops[0]]["go.pub"]
+			if d != nil && g != nil && !d.ok && g.ok {
+				Known("dart-variable-glued-to-delimiter", fmt.Sprintf("scope Events prefix foo.{user} with -delim __: generated Dart has var prefix = 'foo.$user__' (undefined identifier user__, does not compile); Go/Java/Python give %q", g.topic))
+			}
+		}
+	}
+}
+
 // ---------- suite ----------
 
 func c08Report(c c08Case, fails []c08Fail) {
@@ -1062,6 +1085,7 @@ func c08Report(c c08Case, fails []c08Fail) {
 func init() {
 	suites["c08"] = func(r *Rng, n int) {
 		c08Known()
+		c08KnownDart()
 		for i := 0; i < n; i++ {
 			c, kind := genC08(r)
 			if c08HazardToken(c.prefix) {
